@@ -54,13 +54,15 @@ let dispatch fn args = match fn, args with
       hx (patch_first (bool_of_str onTop) (rot_of rot) (by wm) (by c) (bool_of_str isLast))
   | "newstream", [onTop; rot; wm] -> hx (new_stream (bool_of_str onTop) (rot_of rot) (by wm))
   | "wmcontent", [mtx; gs; xo] -> hx (wm_content (by mtx) (by gs) (by xo))
-  | "page", [onTop; mtx; gs; xo; ct] ->
+  | "pageapi", [onTop; mtx; gs; xo; ct] ->
       let wm = wm_content (by mtx) (by gs) (by xo) in
       let added = add_page (bool_of_str onTop) None wm (contents_of ct) in
       let det = detect_page added in
       let rm = remove_page added in
-      let det2 = (match rm with POk (_, ct', _, _) -> str_of_bool (detect_page ct') | _ -> "-") in
-      Printf.sprintf "add=%s|det=%s|rm=%s|det2=%s" (str_contents added) (str_of_bool det) (str_page rm) det2
+      let rms, det2 = (match rm with
+        | POk (_, ct', _, _) -> str_contents ct', str_of_bool (detect_page ct')
+        | PFuel -> "fuel", "-" | PNoContents -> "err:nocontents", "-") in
+      Printf.sprintf "add=%s|det=%s|rm=%s|det2=%s" (str_contents added) (str_of_bool det) rms det2
   | "doc", [onTop; ocg; seladd; selrm; pages] ->
       let wm = wm_content (by "31203020302031203020") (by "475330") (by "466d30") in
       let d = { d_ocg = bool_of_str ocg; d_pages = pages_of pages } in
